@@ -1,0 +1,11 @@
+//go:build !verif
+
+package decoder
+
+// Verification hooks (build tag "verif"): no-ops in normal builds.
+
+type verifStreamSnap struct{}
+
+func verifStreamPre(s *Stream) verifStreamSnap                         { return verifStreamSnap{} }
+func verifStreamRead(s *Stream, pre verifStreamSnap, n int, err error) {}
+func verifStreamReset(s *Stream, pre verifStreamSnap)                  {}
